@@ -141,6 +141,7 @@ class PairingFamily:
                 yield dict(kind="fexp", key=key, elem=kind, seed=rng.randrange(10 ** 9))
             return
         yield dict(kind="gates", key=key, seed=rng.randrange(10 ** 9))
+        yield dict(kind="rawmode", key=key, seed=rng.randrange(10 ** 9))
         yield dict(kind="bilinear", key=key, seed=rng.randrange(10 ** 9))
 
     def check(self, fn, inp):
@@ -176,6 +177,24 @@ class PairingFamily:
                 return dict(why="final_exponentiate(x) != x ** ((p^12 - 1) / r)", element=[int(c) for c in x.coeffs])
             return None
         one = m.FQ12.one()
+        if k == "rawmode":
+            # two-step form: values obtained with final_exponentiate=False, exponentiated afterwards, equal the pairing
+            if not opt:
+                return None
+            pm = M(pkg + ".optimized_pairing")
+            import inspect
+            if "final_exponentiate" not in inspect.signature(pm.pairing).parameters:
+                return None
+            for a, b in ((1, 1), (rng.randrange(2, 50), rng.randrange(2, 50))):
+                Q, P = m.multiply(m.G2, b), m.multiply(m.G1, a)
+                raw = pm.pairing(Q, P, final_exponentiate=False)
+                full = pm.pairing(Q, P)
+                if not pm.final_exponentiate(raw) == full:
+                    return dict(why="final_exponentiate(pairing(Q, P, final_exponentiate=False)) != pairing(Q, P)", scalars=[a, b])
+                raw2 = pm.miller_loop(m.twist(Q), pm.cast_point_to_fq12(P), final_exponentiate=False) if hasattr(pm, "cast_point_to_fq12") else raw
+                if not pm.final_exponentiate(raw2) == full:
+                    return dict(why="final_exponentiate(miller_loop(.., final_exponentiate=False)) != pairing(Q, P)", scalars=[a, b])
+            return None
         if k == "gates":
             infs1 = [m.Z1] if not opt else [m.Z1, m.neg(m.Z1), m.double(m.Z1), m.multiply(m.Z1, 3), (m.FQ(5), m.FQ(7), m.FQ(0)),
                                              m.multiply(m.G1, m.curve_order), m.neg(m.multiply(m.G1, m.curve_order))]
